@@ -127,6 +127,20 @@ CLAIMED = {
             "Trusted: rustc nightly MIR; exemption tables in rules/c01.py (decorators, labels, redundant fields); "
             "TOKEN_ORACLE/BINOP_ORACLE transcriptions.",
             "DESIGN.md §4 C01"),
+    "C02": ("dominance (check-before-lower, parse2-before-Ok), per-variant always-error arm classification across "
+            "checker and lowering, reconstruction of quote! template paths from MIR resolved against the runtime "
+            "crates' module tables, walker exhaustiveness of the import tracker, token-shape rule, derive-name scope",
+            "Decides necessary conditions of `check passes => build succeeds`: strict policy holds for every lowered "
+            "program (violated for dependency modules, listed); emitted text is returned only after syn::parse2 "
+            "succeeded; no construct accepted by the checker is unconditionally refused by lowering (TupleAssign is); "
+            "all 39 incan_stdlib/incan_derive paths in emitter templates resolve to pub items (with feature gating) "
+            "and all external crates are declarable; the import tracker visits every IR kind that can hold a dict/set "
+            "literal (16 kinds are skipped, reproduced); float casts are emitted as one group (they are not, "
+            "reproduced); derive names resolve to macros in scope (Display does not). rustc acceptance in general "
+            "(argument types of templates, borrow checking) is not decided.",
+            "Trusted: rustc nightly MIR; runtime crate facts extracted with features json,web; quote! expansion "
+            "shape (push_ident/push_colon2 sequences).",
+            "DESIGN.md §4 C02"),
 }
 
 NOT_APPLICABLE = {
@@ -168,7 +182,8 @@ def main():
         "version": 1,
         "setup_cmd": "cd /verif/tools/factdrv && CARGO_NET_OFFLINE=true cargo +nightly build --release --offline && "
                      "cd /verif && ./tools/extract.sh default /verif/.cache/facts/warmup warmup >/dev/null 2>&1; "
-                     "rm -rf /verif/.cache/facts/warmup; true",
+                     "./tools/extract.sh stdlib_web /verif/.cache/facts/warmup2 warmup >/dev/null 2>&1; "
+                     "rm -rf /verif/.cache/facts/warmup /verif/.cache/facts/warmup2; true",
         "hooks": {
             "guard": "incan_verif",
             "enable": "none needed: the checks read /repo's unmodified working tree through a rustc wrapper "
